@@ -120,7 +120,7 @@ var noInitPkgs = map[string]bool{
 	"sync": true, "internal/poll": true, "os/signal": true, "net/http": true, "log": true,
 	"internal/godebug": true, "crypto/rand": true, "math/rand": true, "math/rand/v2": true,
 	"internal/cpu": true, "crypto/internal/fips140/sha256": true,
-	"google.golang.org/grpc": true, "github.com/sirupsen/logrus": true, "github.com/containerd/log": true,
+	"google.golang.org/grpc": true, "github.com/sirupsen/logrus": true,
 	"github.com/prometheus/client_golang/prometheus": true, "github.com/docker/go-metrics": true,
 	"internal/testlog": true, "internal/syscall/unix": true, "golang.org/x/sys/unix": true,
 	"unicode": true, "encoding/json": true, "mime": true, "mime/multipart": true, "net/textproto": true,
